@@ -133,6 +133,70 @@ pub fn build(full_name: &str, level: u8) -> Option<Scenario> {
                 s.max_term = mt + 1;
             }
         }
+        // ------------------------------------------------------------ RELEAD
+        // 5 voters; node 1 led term 1 and got entries 2..4 acknowledged by node 2 only; node 3
+        // led term 2 (elected by 4, 5) and overwrote that tail everywhere; now node 1 may lead
+        // again: acknowledgements of its first leadership must not count
+        n if n.starts_with("relead5") => {
+            s = Scenario::new(name, 5);
+            for nd in s.nodes.iter_mut() {
+                nd.max_size_per_msg = 0;
+            }
+            s.prefix = vec![
+                Action::Timeout(1),
+                Action::Settle,
+                Action::Propose(1, 0),
+                Action::Settle0(1),
+                Action::Deliver(1, 2),
+                Action::Settle0(2),
+                Action::Deliver(2, 1),
+                Action::Settle0(1),
+                Action::DropAll,
+                Action::Propose(1, 0),
+                Action::Settle0(1),
+                Action::Deliver(1, 2),
+                Action::Settle0(2),
+                Action::Deliver(2, 1),
+                Action::Settle0(1),
+                Action::DropAll,
+                Action::Propose(1, 0),
+                Action::Settle0(1),
+                Action::Deliver(1, 2),
+                Action::Settle0(2),
+                Action::Deliver(2, 1),
+                Action::Settle0(1),
+                Action::DropAll,
+                Action::Timeout(3),
+                Action::Settle0(3),
+                Action::Deliver(3, 4),
+                Action::Settle0(4),
+                Action::Deliver(3, 5),
+                Action::Settle0(5),
+                Action::Deliver(4, 3),
+                Action::Settle0(3),
+                Action::Deliver(5, 3),
+                Action::Settle0(3),
+                Action::Settle,
+                Action::Crash(3, 9),
+                Action::Crash(5, 9),
+            ];
+            s.down_forever = vec![3, 5];
+            s.timeoutable = vec![1];
+            s.clients_at = vec![1];
+            s.crashable = vec![];
+            let (to, props, drops, mi) = match l {
+                0 => (1, 1, 0, 5),
+                1 => (1, 1, 1, 5),
+                _ => (2, 2, 2, 6),
+            };
+            s.max_term = 4;
+            s.max_index = mi;
+            s.caps = caps(|c| {
+                c.timeouts = to;
+                c.props = props;
+                c.drops = drops;
+            });
+        }
         // ------------------------------------------------------------ STALE
         // voter {1} (+ learner 3) and a removed-but-unaware former voter 2
         n if n.starts_with("stale") => {
@@ -169,8 +233,8 @@ pub fn build(full_name: &str, level: u8) -> Option<Scenario> {
             s.crashable = vec![1];
             s.tickable = vec![1];
             let (mt, to, ticks, props, cuts, crashes, lazy, dups) = match l {
-                0 => (3, 2, 0, 0, 0, 0, 2, 0),
-                1 => (4, 2, 0, 1, 0, 0, 2, 0),
+                0 => (3, 2, 0, 0, 0, 1, 2, 0),
+                1 => (4, 2, 0, 1, 0, 1, 2, 0),
                 2 => (4, 3, 0, 1, 1, 0, 2, 0),
                 3 => (5, 3, 2, 1, 1, 1, 3, 1),
                 _ => (6, 4, 4, 2, 2, 1, 4, 1),
@@ -311,6 +375,13 @@ pub fn build(full_name: &str, level: u8) -> Option<Scenario> {
                 }
                 s.inputs_per_ready = 2;
                 s.prop_sizes = vec![1, 40];
+                if n.contains("-unp") {
+                    // apply-before-persist on the leader with a finite page size
+                    for nd in s.nodes.iter_mut() {
+                        nd.max_apply_unpersisted = 2;
+                        nd.max_committed_size_per_ready = 30;
+                    }
+                }
                 s.prefix = vec![
                     Action::Timeout(1),
                     Action::Settle,
@@ -379,10 +450,11 @@ pub fn build(full_name: &str, level: u8) -> Option<Scenario> {
         }
         // ------------------------------------------------------------ MEMBER
         n if n.starts_with("member") => {
-            s = Scenario::new(name, 4);
+            // the spare node 4 is pointless when the menu never adds it
+            s = Scenario::new(name, if n.contains("-rm1") { 3 } else { 4 });
             s.voters = vec![1, 2, 3];
             for nd in s.nodes.iter_mut() {
-                nd.apply_lag = !n.contains("-eager");
+                nd.apply_lag = !n.contains("-eager") && !(n.contains("-rm1") && l == 0);
                 if n.contains("-async") {
                     nd.mode = AppMode::Async;
                 }
@@ -412,9 +484,9 @@ pub fn build(full_name: &str, level: u8) -> Option<Scenario> {
             } else if n.contains("-rm1") {
                 // the leader removes itself (raft-rs lets it keep leading until it steps down)
                 s.prefix = vec![Action::Timeout(1), Action::Settle];
-                s.cc_menu = vec![CcSpec::V1(1, 1)];
+                s.cc_menu = vec![CcSpec::V1(1, 1), CcSpec::V1(2, 1)];
                 s.clients_at = vec![1];
-                s.timeoutable = vec![2];
+                s.timeoutable = vec![1, 2];
             } else {
                 s.prefix = vec![Action::Timeout(1), Action::Settle];
             }
@@ -440,7 +512,7 @@ pub fn build(full_name: &str, level: u8) -> Option<Scenario> {
                 s.clients_at = vec![1];
             }
             let (ccs, props, to, crashes, mt, mi, xf, lazy) = match l {
-                1 if n.contains("-rm1") => (1, 1, 0, 0, 2, 6, 0, 1),
+                0 | 1 if n.contains("-rm1") => (1, l as u8, 2, 0, 3, 6, 0, 1),
                 0 | 1 if n.contains("-mix") => (2, 1, 0, 0, 2, 7, 0, 1),
                 0 => (1, 0, 0, 0, 2, 5, 0, 1),
                 1 => (1, 0, 0, 0, 2, 5, 0, 1),
